@@ -331,6 +331,7 @@ class Cmp:
         self.stats = collections.Counter()
         self.int_cases = {}                 # (order, signed, size, hex) -> [ddl_int, go_int or None, where]
         self.str_cases = {}                 # (pad, hex) -> [ddl canonical hex, go hex or None, where]
+        self.attr_cases = {}                # (order, signed, size, hex) -> [go int, where]: ReadValue vs its transcription
         self.samples = []
         self.prec = None                    # float print precision of the DDL section being compared
 
@@ -947,6 +948,37 @@ def consistency_file(C, fname, out):
                 where = path + "@" + bytes.fromhex(a["name"]).decode("utf-8", "surrogateescape")
                 exp = expected_from_raw(a["class"], a["size"], a["bits"], t.get("props"), raw, len(gv[1]))
                 consistency_compare(C, fname, where, a["class"], a["size"], exp, gv[1], raw, gv[0])
+                if a["class"] == 0 and a["size"] in (4, 8) and gv[0] == "int":
+                    sz = a["size"]
+                    for i in range(min(len(gv[1]), len(raw) // sz)):
+                        key = ("BE" if a["bits"] & 1 else "LE", bool(a["bits"] & 8), sz, raw[i * sz:(i + 1) * sz].hex())
+                        if key not in C.attr_cases:
+                            C.attr_cases[key] = [gv[1][i], "%s:%s[%d]" % (fname, where, i)]
+
+
+def membership_consistency(C, fname, out):
+    """Every link a returned group's own header announces (link messages / symbol table, parsed by the reader's
+    parsers) must be a member of what Children() returned: a link that is dropped is a silently missing member,
+    with or without a DDL."""
+    extra = out.get("extra") or {}
+    for g in out["dump"]["objects"]:
+        if go_kind(g) != "group":
+            continue
+        ex = extra.get(g["path"]) or {}
+        if ex.get("linkserr") or not ex.get("links"):
+            continue
+        have = set(g.get("children") or [])
+        path = norm_path(g["path"])
+        # a group reached through a second path is returned empty (known finding): its links are all "dropped"
+        for l in ex["links"]:
+            C.stats["links_vs_children"] += 1
+            if l["name"] in have:
+                continue
+            nm = bytes.fromhex(l["name"]).decode("utf-8", "surrogateescape")
+            kind = {"hard": "child", "soft": "softlink", "other": "extlink"}[l["kind"]]
+            C.d(fname, norm_path(path.rstrip("/") + "/" + nm), "dropped-link:" + kind,
+                "%s link %r announced by the %s of group %s" % (l["kind"], nm, ex.get("linkssrc"), path),
+                "not among Children(); no error reported%s" % ((" (child loader: %s)" % l["loaderr"][:120]) if l.get("loaderr") else ""), "format")
 
 
 def consistency_compare(C, fname, where, cls, size, exp, vals, raw, gkind):
@@ -1032,6 +1064,17 @@ def coq_tie(C, tier, rng):
         v.append("Definition %s : list str_case := [%s].\n" % (name, ";".join(items)))
         v.append("Definition bad_%s := Eval vm_compute in mismatches str_case_ok %s.\n" % (name, name))
         labels.append(("bad_" + name, "str", chunk))
+    attrs = sorted(C.attr_cases.items())
+    if len(attrs) > cap_s * 2:
+        rng.shuffle(attrs)
+        attrs = sorted(attrs[:cap_s * 2])
+    for k in range(0, len(attrs), 2500):
+        chunk = attrs[k:k + 2500]
+        name = "ac_%d" % k
+        items = ["(%s,%s,%d%%N,\"%s\",(%d)%%Z)" % (o, vlib.cbool(sg), sz, hx, gvv) for (o, sg, sz, hx), (gvv, _) in chunk]
+        v.append("Definition %s : list attr_case := [%s].\n" % (name, ";".join(items)))
+        v.append("Definition bad_%s := Eval vm_compute in mismatches attr_case_ok %s.\n" % (name, name))
+        labels.append(("bad_" + name, "attr", chunk))
     if not labels:
         return 0, []
     v.append("Definition ALLBAD := Eval vm_compute in [%s].\nPrint ALLBAD.\n" % ";".join("N.of_nat (List.length %s)" % l[0] for l in labels))
@@ -1044,20 +1087,29 @@ def coq_tie(C, tier, rng):
         if n:
             for i in vlib.parse_nlist(outp, lab)[:5]:
                 bad.append((what, chunk[i]))
-    return len(ints) + len(strs), bad
+    return len(ints) + len(strs) + len(attrs), bad
 
 
 # ----------------------------------------------------------------------------- known findings
 
 def load_known():
+    """(file, object, kind) -> root cause id, from corpus/C06/known.json; a root cause whose entry in
+    /verif/KNOWN_FINDINGS.json (when the coordinator has copied it there) is no longer 'open' stops excusing anything."""
     if not os.path.exists(KNOWN_PATH):
         return {}, []
     k = json.load(open(KNOWN_PATH))
+    closed = set()
+    kf = os.path.join(vlib.VERIF, "KNOWN_FINDINGS.json")
+    if os.path.exists(kf):
+        for e in json.load(open(kf)).get("findings", []):
+            if e.get("property") == "C06" and e.get("status") != "open":
+                closed.add(e.get("id"))
     idx = {}
-    for rc in k.get("root_causes", []):
+    rcs = [rc for rc in k.get("root_causes", []) if rc.get("status", "open") == "open" and rc["id"] not in closed]
+    for rc in rcs:
         for e in rc.get("entries", []):
             idx[(e[0], e[1], e[2])] = rc["id"]
-    return idx, k.get("root_causes", [])
+    return idx, rcs
 
 
 def collect(H, tier, rng, only=None):
@@ -1112,6 +1164,7 @@ def collect(H, tier, rng, only=None):
             summ["objects_returned"] += len(d["objects"])
         if not d.get("openerr"):
             consistency_file(C, rel.replace("testdata/", "", 1), o)
+            membership_consistency(C, rel.replace("testdata/", "", 1), o)
         b = sha_of_ddl_file.get(d.get("sha"))
         if b is None:
             continue
@@ -1164,7 +1217,8 @@ def run(ctx):
             replay_cmd="verifharness c06 <repo>/testdata/%s 0" % d["file"], new_discrepancies_total=len(new)))
     # Coq tie
     ncoq, bad = coq_tie(C, ctx.tier, rng)
-    for what, (key, (dv, gvv, where)) in bad:
+    for what, (key, val) in bad:
+        dv, gvv, where = (val + [None])[:3] if what != "attr" else (val[0], val[1], None)
         if what == "int":
             order, signed, size, hx = key
             py = dec_int_py(order, signed, size, bytes.fromhex(hx))
@@ -1174,6 +1228,15 @@ def run(ctx):
                 v["nofail"] = True
                 v["correspondence"] = "Model.RefDecode.dec_int vs format decoding (theorem C06_int_roundtrip)"
             else:
+                v["failing_input"] = v["case"]
+        elif what == "attr":
+            order, signed, size, hx = key
+            v = dict(what="Attribute.ReadValue differs from its transcription go_attr_int_fixed on %s: bytes %s (%s%d%s): reader %r" % (
+                gvv, hx, "I" if signed else "U", 8 * size, order, dv), case=dict(order=order, signed=signed, size=size, bytes=hx, go=dv, where=gvv),
+                nofail=True, correspondence="Model.RefDecode.go_attr_int_fixed vs internal/core/attribute.go ReadValue")
+            spec = dec_int_py(order, signed, size, bytes.fromhex(hx))
+            if dv != spec and dv != dec_int_py(order, True, size, bytes.fromhex(hx)):
+                v.pop("nofail")
                 v["failing_input"] = v["case"]
         else:
             pad, hx = key
